@@ -58,6 +58,34 @@ S = {
  "C17c_B": ("trajectory measurement divides every Wiener increment by the first output interval", "store_measurement with an unevenly spaced tlist", "C17 (measurement identity on uneven tlist; added after the first run missed it)"),
  "C19c_A": ("CFExponent._combine merges an 'I' exponent that comes first as if it were real", "two exponents of equal rate, imaginary one listed first, combine=True", "C19 (merged-kinds rewriting plus the Lean combine model; added after the first run missed it)"),
  "C19c_B": ("stored ADO states are views of the integrator's buffer", "HEOM run storing ADO states with an integrator that reuses its buffer (vern7 / vern9 / adams)", "C19 (ADO alignment over integrators; added after the first run missed it), C12"),
+ "C04c_A": ("_eigs_dense passes overwrite_a=True to LAPACK on a view of the operator's data", "Dense non-Hermitian operator in column-major order (or the transposed view of a row-major one), eigenenergies / eigenstates", "C04 (general operands and transposed views through eigenvalue routines; added after the first run missed it)"),
+ "C04c_B": ("QobjEvo copies share their feedback tables; replacing a feedback argument by a value deletes it from the shared table", "QobjEvo with a solver-feedback argument, used once with a plain value for that key", "C04 (operators carrying feedback arguments, repr in the snapshot; added after the first run missed it)"),
+ "C07c_A": ("Bloch-Redfield basis transform keeps the inverse eigenvectors of the previous time", "time-dependent H with rotating eigenvectors, tensor in the input basis, second evaluation at another time", "C07"),
+ "C07c_B": ("'matrix' Bloch-Redfield method assumes a symmetric coupling operator", "br_computation_method='matrix', coupling complex in the eigenbasis, secular cutoff off or loose", "C07"),
+ "C11c_A": ("Propagator memoises inverses in a list that the memo eviction does not keep in step", "time-dependent system, U(t, t_start) with t_start != 0, more distinct times than the memo holds", "C11"),
+ "C11c_B": ("MESolver keeps the caller's Liouvillian QobjEvo as its rhs when there are no c_ops", "two solvers built from one time-dependent superoperator QobjEvo, one of them given new args", "C11 (two solvers from one generator object; added after the first run gave no-failing-input-found through C04's translator only), C04"),
+ "C13c_A": ("influence-martingale table of nm_mcsolve kept across runs over the same tlist", "same NonMarkovianMCSolver, same tlist, run(args=) changing a rate that goes negative", "C13 (runs with other arguments in between; added after the first run missed it), C16"),
+ "C13c_B": ("measurement-record flag of the stochastic steppers outlives a replay", "run_from_experiment(measurement=True) followed by run / step on the same solver", "C13 (replay in between; added after the first run missed it), C17"),
+ "C16c_A": ("jump search loop rewritten as for-range: running out of tries is taken as success", "searches that do not converge within norm_steps: method='diag', small norm_steps with a coarse tlist", "C16"),
+ "C16c_B": ("influence-martingale integrals reused across runs with different args", "one NonMarkovianMCSolver, run(args=A) then run(args=B) over the same tlist, negative rates", "C16 (a run with other args on a used solver against a fresh solver; added after the first run missed it), C13"),
+ "C18c_A": ("trace row written in place into a view of the caller's dense Liouvillian", "Liouvillian Qobj in Dense storage, direct method with a dense solver, object used again", "C18, C04"),
+ "C18c_B": ("pseudo_inverse(use_rcm=True) permutes only half of the projector", "use_rcm=True with a CSR Liouvillian", "C18 (reordering options of pseudo_inverse; added after the first run missed it)"),
+ "C02d_A": ("Dimensions.__ne__ shortcut for square objects compares the row space only", "left operand square, right operand of the same shape and row space with another column space: + and - accepted, == True", "C02 (relabelled near-miss pairs, == / != consistency; added after the first run missed it)"),
+ "C02d_B": ("Qobj.overlap of an operator with a pure state computed as <psi|A|psi> for both orders", "operator on the left, ket or bra on the right, non-Hermitian operator", "C02 (overlap oracle; added after the first run missed it)"),
+ "C03d_A": ("solver state metadata (dims and Hermitian flag) rebuilt only when the dims change", "one solver object run twice with states of equal dims and different Hermiticity", "C03 (outputs of re-used solver objects; added after the first run missed it)"),
+ "C03d_B": ("Qobj.transform keeps the cached unitary flag for a list of kets without checking orthonormality", "operator with a cached unitary flag transformed by a non-orthonormal list of kets", "C03 (basis changes by lists of kets; added after the first run missed it)"),
+ "C06d_A": ("coefficient_function_parameters keeps positional-or-keyword parameters only", "pythonic function with keyword-only parameters", "C06"),
+ "C06d_B": ("InterCoefficient keeps the caller's arrays when their dtype already matches", "complex128 samples or float64 tlist, order 0 or 1, arrays modified in place afterwards", "C06 (coefficients do not alias the caller's arrays; added after the first run missed it)"),
+ "C08d_A": ("_super_tofrom_choi forwards a cached Hermitian flag", "Hermitian supermatrix with its flag set (spre / spost / sprepost of Hermitian operators)", "C08, C03"),
+ "C08d_B": ("Qobj.istp of a plain operator answered by isunitary", "conjugation by a non-square isometry given as a plain operator", "C08 (conjugations given as plain rectangular operators; borderline handling split per predicate; added after the first run missed it)"),
+ "C09d_A": ("tensor_swap composes several pairs into the inverse permutation", "one call with overlapping pairs that compose to a non-involution", "C09 (several pairs per call; added after the first run missed it)"),
+ "C09d_B": ("reshuffle of a tensor of superoperators uses the interleaved index layout for factors on composite spaces", "factor acting on two or more subsystems", "C09"),
+ "C14d_A": ("results arriving after the reducer's stop signal are not handed to the reducer", "parallel map with a reducer that stops early while other tasks are in flight", "C14"),
+ "C14d_B": ("a task's own TimeoutError / CancelledError is mistaken for an aborted future", "parallel_map with a task raising the builtin TimeoutError", "C14 (parallel_map front-end driven with four exception classes; added after the first run missed it)"),
+ "C15d_A": ("trajectories folded into already built state sums bypass NmmcResult's trace weighting", "NmmcResult with keep_runs_results, states polled while trajectories are still being added", "C15 (McResult / NmmcResult polled between adds; added after the first run missed it)"),
+ "C15d_B": ("average_final_state rebuilds only the missing sum but reduces every trajectory", "merge of an operand that was read before (with a deterministic trajectory) with one that was not", "C15 (systematic merge family; added after the first run missed it)"),
+ "C20d_A": ("coherent(..., offset) restores the phase of alpha with one power instead of offset powers", "offset >= 2 with a complex or negative amplitude", "C20 (coherent states with offsets against the closed form; added after the first run missed it)"),
+ "C20d_B": ("retry of rand_ket(distribution='fill') loses random_state=generator", "distribution='fill' with density x N < 0.5 and an explicit seed", "C20"),
 }
 for d in sorted(glob.glob("/verif/seeded/*/")):
     name = os.path.basename(os.path.dirname(d))
